@@ -467,6 +467,8 @@ fn one_doc(cs: &mut Cases, label: &str, ir: &Value, cfg: &GenCfg) {
                 cs.fail_last("emit:client-flavours-differ", format!("the blocking and the async client method of {}.{} make different calls: {} vs {}", sname, ename, c_sync, c_async));
             } else if s_sync != s_async {
                 cs.fail_last("emit:server-flavours-differ", format!("the blocking and the async trait method of {}.{} carry different attributes: {} vs {}", sname, ename, s_sync, s_async));
+            } else if let Some(what) = size_limit_differs(&ep, servers.iter().filter(|e| lit(&e.attr, "name").as_deref() == Some(ename) && (e.trait_name == sname || e.trait_name == format!("Async{}", sname)))) {
+                cs.fail_last("emit:size-limit", format!("{}.{}: {} — IR endpoint {}", sname, ename, what, serde_json::to_string(&ep).unwrap().chars().take(600).collect::<String>()));
             } else if c_sync != "missing" && s_sync != "missing" {
                 if let Some(what) = halves_agree(&c_sync, &s_sync, ep["httpPath"].as_str().unwrap_or("")).or_else(|| fits_types(&c_sync, &s_sync, &ep, ir)) {
                     cs.fail_last("emit:halves-disagree", format!("generated client and generated server of {}.{} ({} {}) do not fit: {} — IR endpoint {}", sname, ename, ep["httpMethod"].as_str().unwrap_or(""), ep["httpPath"].as_str().unwrap_or(""), what, serde_json::to_string(&ep).unwrap().chars().take(900).collect::<String>()));
@@ -476,8 +478,41 @@ fn one_doc(cs: &mut Cases, label: &str, ir: &Value, cfg: &GenCfg) {
     }
 }
 
+/// the request-size limit an endpoint declares (`server-limit-request-size:<n><unit>`, blanks around the value allowed),
+/// read independently of the generator, against the limit the generated body deserializer carries
+fn size_limit_differs<'a>(ep: &Value, methods: impl Iterator<Item = &'a EndpointInfo>) -> Option<String> {
+    let tag = ep["tags"].as_array()?.iter().filter_map(|t| t.as_str()).find_map(|t| t.strip_prefix("server-limit-request-size:"))?.trim().to_string();
+    let digits: String = tag.chars().take_while(|c| c.is_ascii_digit()).collect();
+    let unit = tag[digits.len()..].trim().to_ascii_lowercase();
+    let mult: u64 = match unit.as_str() {
+        "b" | "" => 1,
+        "k" | "kb" => 1000,
+        "ki" | "kib" => 1024,
+        "m" | "mb" => 1000 * 1000,
+        "mi" | "mib" => 1024 * 1024,
+        "g" | "gb" => 1000 * 1000 * 1000,
+        "gi" | "gib" => 1024 * 1024 * 1024,
+        _ => return None,
+    };
+    let want = digits.parse::<u64>().ok()? * mult;
+    for m in methods {
+        for a in &m.args {
+            if a.kind == "body" && a.attr.contains("StdRequestDeserializer") {
+                let compact: String = a.attr.chars().filter(|c| !c.is_whitespace()).collect();
+                let got = compact.split("StdRequestDeserializer<").nth(1).map(|r| r.chars().take_while(|c| c.is_ascii_digit()).collect::<String>());
+                if got.as_deref().and_then(|g| g.parse::<u64>().ok()) != Some(want) {
+                    return Some(format!("the endpoint declares a request size limit of {} bytes (`{}`) but the body of trait {} is read with {}", want, tag, m.trait_name, match &got { Some(g) if !g.is_empty() => format!("a limit of {} bytes", g), _ => "the default limit".to_string() }));
+                }
+            }
+        }
+    }
+    None
+}
+
 /// every parameter kind and the return position against every shape a type can resolve to: directly, through an alias,
 /// through an alias of an alias, and through an imported type
+const LIMIT_TAGS: [&str; 5] = ["server-limit-request-size: 10kb", "server-limit-request-size:10b", "server-limit-request-size:   2 MiB ", "server-limit-request-size:512", "server-limit-request-size: 3 k"];
+
 fn directed() -> Value {
     use serde_json::json;
     let pkg = "com.palantir.emit";
@@ -532,7 +567,7 @@ fn directed() -> Value {
         eps.push(json!({"endpointName": format!("r{}", n), "httpMethod": "GET", "httpPath": format!("/r/{}", i), "args": [], "returns": t, "markers": [], "tags": []}));
     }
     for (i, (n, t)) in anything.iter().enumerate() {
-        eps.push(json!({"endpointName": format!("limited{}", n), "httpMethod": "PUT", "httpPath": format!("/l/{}", i), "args": [arg("body", t, json!({"type": "body", "body": {}}))], "markers": [], "tags": ["server-limit-request-size: 10kb"]}));
+        eps.push(json!({"endpointName": format!("limited{}", n), "httpMethod": "PUT", "httpPath": format!("/l/{}", i), "args": [arg("body", t, json!({"type": "body", "body": {}}))], "markers": [], "tags": [LIMIT_TAGS[i % 5]]}));
     }
     eps.push(json!({"endpointName": "noSegments", "httpMethod": "GET", "httpPath": "/", "args": [], "markers": [], "tags": []}));
     eps.push(json!({"endpointName": "paramFirst", "httpMethod": "DELETE", "httpPath": "/{a}/{b}/x/y/{c}", "args": [arg("c", &p("STRING"), json!({"type": "path", "path": {}})), arg("a", &p("INTEGER"), json!({"type": "path", "path": {}})), arg("b", &r("Colour"), json!({"type": "path", "path": {}}))], "markers": [], "tags": []}));
